@@ -95,6 +95,19 @@ func predLang(c Case) (r Result) {
 		accepted, cerr = serr == nil, serr
 		r.class("reused-parser-differs")
 	}
+	if !accepted && !strings.ContainsRune(c.Expr, 0) {
+		// the one-shot entry point decides alike, also on a document that happens to have the
+		// whole text as a key (a short cut that looks the text up before parsing it)
+		var sv interface{}
+		var serr error
+		if span := safely(func() {
+			sv, serr = jp.Search(c.Expr, map[string]interface{}{c.Expr: 1.0, strings.TrimSpace(c.Expr): 2.0, "a": map[string]interface{}{c.Expr: 3.0}})
+		}); span == nil && serr == nil {
+			accepted = true
+			r.class("one-shot-search-differs")
+			_ = sv
+		}
+	}
 	switch st {
 	case ref.LexOutOfDomain:
 		r.Discard = "out-of-domain:" + why
